@@ -71,7 +71,7 @@ class DBusMessage :
 #            if not a.startswith('raw'):
 #                print '    %s = %s' % (a.ljust(15), str(getattr(self,a)))
 
-    def _marshal(self, newSerial=True, oobFDs=None):
+    def _marshal(self, newSerial=True, oobFDs=None, reuseBody=False):
         """
         Encodes the message into binary format. The resulting binary message is
         stored in C{self.rawMessage}
@@ -88,7 +88,12 @@ class DBusMessage :
         _headerAttrs = self._headerAttrs
 
         # marshal body before headers to know if the 'unix_fd' header is needed
-        if self.signature:
+        if reuseBody:
+            # a parsed message being forwarded: its body bytes are kept
+            # verbatim (re-encoding the decoded values would re-infer the
+            # types of variant contents)
+            binBody = self.rawBody
+        elif self.signature:
             binBody = b''.join(
                 marshal.marshal(
                     self.signature,
@@ -387,6 +392,8 @@ def parseMessage(rawMessage, oobFDs):
         )
 
     m = object.__new__(_mtype[messageType])
+
+    m.endian = rawMessage[0]
 
     m.rawHeader = rawMessage[:nheader]
 
